@@ -129,8 +129,9 @@ def build(ctx, case):
     inv += " -phases\n" + "".join("  %s%s\n" % (p, (" " + cons[p]) if cons[p] else "") for p in cands)
     per = {}
     bal = ""
-    for e in r.sample(["Mg", "K", "F", "Sr", "Ba", "Si"], r.randint(0, 3)):
-        u = r.choice([0.01, 0.05, 0.2])
+    # per-element overrides, also for the elements with several valence states (S, C: the override must reach S(6) and C(4)) and for the major ions
+    for e in r.sample(["Mg", "K", "F", "Sr", "Ba", "Si", "S", "C", "Ca", "Cl", "Na"], r.randint(0, 4)):
+        u = r.choice([0.005, 0.01, 0.05, 0.2])
         per[e] = u
         bal += "  %s %s\n" % (e, f(u))
     # elements that only occur in candidate phases must be listed under -balances
